@@ -1,4 +1,5 @@
 import GoaktVerif.Model.C15
+import GoaktVerif.Model.C15Grain
 import GoaktVerif.Spec.C15
 import GoaktVerif.Lemmas.C15Final
 import GoaktVerif.Lemmas.C15LossFinal
@@ -161,3 +162,41 @@ example : noLoss (runActs (init .fixed lossProgs)
 example : ownReply (runActs (init .fixed crossProgs) crossActs) = true := by decide
 
 end GoaktVerif.C15
+
+/-! ### the grain path (`actorSystem.localSend`, `Model.C15Grain`) still has the late store: finding C15-F3
+
+A witness on the model (the same schedule is replayed on the real `localSend` / `grainMailbox` / `GrainContext` on every
+run, corpus/C15/witness.case): AskGrain(1) times out legitimately and is starved before its late
+`responseClosed.Store(true)`; the grain mailbox recycles its context, AskGrain(4) rebuilds it; the late store closes it and
+`Response` for request 4 returns without sending. -/
+
+namespace GoaktVerif.C15.Grain
+open GoaktVerif.Model.C15Grain
+
+def noLossLog : List Ev → Bool
+  | [] => true
+  | .timedOut k :: earlier => !earlier.contains (.respDone k) && noLossLog earlier
+  | _ :: earlier => noLossLog earlier
+
+def lossProgs : List (List Op) := [[.ask 1], [.ask 2, .ask 3, .ask 4], [.handle, .handle, .handle, .handle]]
+
+def lossActs : List Act :=
+  [.run 0, .run 0, .run 0, .run 0, .run 0, .timeout 0, .run 0, .run 2, .run 2, .run 2,
+   .run 1, .run 1, .run 1, .run 1, .run 1, .run 2, .run 2, .run 2, .run 1,
+   .run 1, .run 1, .run 1, .run 1, .run 1, .run 2, .run 2, .run 2, .run 1,
+   .run 1, .run 1, .run 1, .run 1, .run 1, .run 0, .run 2, .run 2, .timeout 1, .run 1, .run 1]
+
+theorem C15_grain_loss_witness :
+    noLossLog (runActs (init false lossProgs) lossActs).log = false ∧
+    (runActs (init false lossProgs) lossActs).threads.map (·.hist.reverse) =
+      [[(.ask 1, .timeout)], [(.ask 2, .reply 2), (.ask 3, .reply 3), (.ask 4, .timeout)],
+       [(.handle, .handled 1), (.handle, .handled 2), (.handle, .handled 3), (.handle, .handled 4)]] := by decide
+
+/-- test (one schedule, not a theorem about all schedules): the same schedule is harmless once the late store is gone -/
+example : noLossLog (runActs (init true lossProgs)
+    [.run 0, .run 0, .run 0, .run 0, .run 0, .timeout 0, .run 0, .run 2, .run 2, .run 2,
+     .run 1, .run 1, .run 1, .run 1, .run 1, .run 2, .run 2, .run 2, .run 1,
+     .run 1, .run 1, .run 1, .run 1, .run 1, .run 2, .run 2, .run 2, .run 1,
+     .run 1, .run 1, .run 1, .run 1, .run 1, .run 2, .run 2, .run 2, .run 1]).log = true := by decide
+
+end GoaktVerif.C15.Grain
